@@ -10,6 +10,8 @@ What is emitted into coq/gen/RequestsGen.v
   * enumerated shape facts: how removeRequest deletes (del / pop with default), whether
     abandonAllRequests queues `req.fail` through eventually() or calls it directly, whether
     newRequestID refuses on a disconnected broker, first request id, one-way request id, ...
+  * eventual.py: the FIFO append, the batch snapshot of _turn and whether an exception raised by one event is caught
+    per event (TurnIsolatesEvents) or ends the loop (TurnStopsAtFirstException).
 Everything that is not recognised raises Untranslatable (fail closed).
 
 Accepted alternative forms (each equivalent to the reference form for ALL inputs, no assumption on value types):
@@ -468,6 +470,54 @@ def gen_unslicers(out):
     out.append("Definition wire_answer_is_lookup_then_complete_and_error_is_lookup_then_fail : bool := true.")
 
 
+# ------------------------------------------------------------------ eventual.py: the queue abandonAllRequests relies on
+def gen_eventual(out):
+    mod = P.load("eventual.py")
+    ap = [src(x) for x in body_of(P.find_def(mod, "_SimpleCallQueue.append"))]
+    if not ap or ap[0] != "self._events.append((cb, args, kwargs))":
+        U("_SimpleCallQueue.append no longer appends (cb, args, kwargs) to self._events: %s" % ap[:1])
+    ev = body_of(P.find_def(mod, "eventually"))
+    if [src(x) for x in ev] != ["_theSimpleQueue.append(cb, args, kwargs)"]:
+        U("eventually() is no longer _theSimpleQueue.append(cb, args, kwargs)")
+    turn = body_of(P.find_def(mod, "_SimpleCallQueue._turn"))
+    srcs = [src(x) for x in turn]
+    # the batch: everything queued when the turn starts, new events go to a fresh list
+    if "(events, self._events) = (self._events, [])" not in srcs and "events, self._events = (self._events, [])" not in srcs:
+        U("_turn no longer takes the batch with `events, self._events = self._events, []`: %s" % srcs[:3])
+    out.append("Definition turn_takes_snapshot : bool := true.")
+
+    def is_call(st):
+        return src(st) == "cb(*args, **kwargs)"
+
+    def swallowing(tr):
+        # except: / except Exception:/BaseException: whose body only logs -> the exception does not propagate
+        if tr.orelse or tr.finalbody or len(tr.handlers) != 1:
+            return False
+        h = tr.handlers[0]
+        if h.type is not None and src(h.type) not in ("Exception", "BaseException"):
+            return False
+        return all(src(b) in ("log.err()", "pass") for b in h.body)
+    loops = [x for x in turn if isinstance(x, ast.For)]
+    tries = [x for x in turn if isinstance(x, ast.Try)]
+    mode = None
+    if len(loops) == 1 and not tries:
+        lp = loops[0]
+        if src(lp.target) == "(cb, args, kwargs)" and src(lp.iter) == "events" and not lp.orelse and len(lp.body) == 1 \
+                and isinstance(lp.body[0], ast.Try) and swallowing(lp.body[0]) and len(lp.body[0].body) == 1 \
+                and is_call(lp.body[0].body[0]):
+            mode = "TurnIsolatesEvents"
+    elif len(tries) == 1 and not loops:
+        tr = tries[0]
+        if swallowing(tr) and len(tr.body) == 1 and isinstance(tr.body[0], ast.For):
+            lp = tr.body[0]
+            if src(lp.target) == "(cb, args, kwargs)" and src(lp.iter) == "events" and not lp.orelse and len(lp.body) == 1 \
+                    and is_call(lp.body[0]):
+                mode = "TurnStopsAtFirstException"
+    if mode is None:
+        U("_turn: the loop over the batch has an unrecognised shape")
+    out.append("Definition turn_mode_of_source : turn_mode := %s." % mode)
+
+
 HEADER = '''
 (* statement language of PendingRequest.complete / fail *)
 Inductive pstmt :=
@@ -487,12 +537,14 @@ Inductive remove_kind := RemoveDel | RemoveQuiet.          (* `del d[k]` raises 
 Inductive abandon_mode := AbandonEventually | AbandonDirect. (* eventually(req.fail, why) / req.fail(why) *)
 (* the test in abandonAllRequests that decides which reasons become DeadReferenceError *)
 Inductive lost_test := LostCheckSubclasses | LostExactTypeOnly. (* Failure.check on the list (matches subclasses) / `why.type in` the list (exact classes only) *)
+(* _SimpleCallQueue._turn: try/except around each event / one try around the whole loop *)
+Inductive turn_mode := TurnIsolatesEvents | TurnStopsAtFirstException.
 Inductive lost_class := ConnectionLostC | ConnectionDoneC | SSLErrorC.
 '''
 
 
 def generate():
-    out = [P.PRELUDE % dict(src="call.py, broker.py, referenceable.py"), HEADER]
+    out = [P.PRELUDE % dict(src="call.py, broker.py, referenceable.py, eventual.py"), HEADER]
     mod = P.load("call.py")
     cls = P.find_class(mod, "PendingRequest")
     consts = P.module_consts(mod, body=cls.body)
@@ -513,4 +565,5 @@ def generate():
     gen_broker(out)
     gen_callremote(out)
     gen_unslicers(out)
+    gen_eventual(out)
     return {"RequestsGen.v": "\n\n".join(out) + "\n"}
